@@ -5,6 +5,7 @@ import Driver.C18
 import Driver.C19
 import Driver.C21
 import Driver.C12
+import Driver.C33
 import Driver.C22
 import Driver.C34
 import Driver.C29
@@ -37,6 +38,7 @@ def dispatch (fs : List String) : String :=
   | "c19" :: rest => Driver.c19 rest
   | "c21" :: rest => Driver.c21 rest
   | "c12" :: rest => Driver.c12 rest
+  | "c33" :: rest => Driver.c33 rest
   | "c22" :: rest => Driver.c22 rest
   | "c34" :: rest => Driver.c34 rest
   | "c29" :: rest => Driver.c29 rest
